@@ -273,6 +273,13 @@ func init() {
 		c.Phase("free-form")
 		free := []string{"", "1", "11111111111111111111111111111111", "1111111111111111111114oLvT2", "m", "bitcoin-script", "1A1zP1eP5QGefi2DMPTfTL5SLmv7DivfN", "1A1zP1eP5QGefi2DMPTfTL5SLmv7DivfNaa",
 			strings.Repeat("z", 34), strings.Repeat("z", 35), strings.Repeat("1", 100), strings.Repeat("2", 500)}
+		// texts in the BIP276 layout with a correct checksum whose scheme is NOT "bitcoin-script":
+		// neither Base58Check nor the one scheme ValidateAddress documents
+		for _, scheme := range []string{"bitcoin-scripts", "bitcoin-script-v2", "bitcoin-script1A1zP1eP5QGefi2DMPTfTL5SLmv7DivfNa", "Bitcoin-script", "bitcoin-scrip", "xbitcoin-script", "bitcoin-template", "bitcoin-script "} {
+			for _, data := range [][]byte{{0x51}, c15Canonical(bytes.Repeat([]byte{0x11}, 20))} {
+				free = append(free, refaddr.EncodeBIP276(refaddr.BIP276{Prefix: scheme, Version: 1, Network: 1, Data: data}))
+			}
+		}
 		for i, s := range free {
 			if c.Case(uint64(i)) {
 				str(c, &c15Str{S: s, Class: "free-form"})
@@ -375,6 +382,17 @@ func c15JudgePos(c *mon.Ctx, in *c15Pos) {
 		}
 		// address -> script
 		var s *bscript.Script
+		if c.Try("bscript.NewP2PKHFromAddress", func() { s, err = bscript.NewP2PKHFromAddress(want) }) && s != nil && err == nil {
+			// the caller owns the script: it overwrites it and asks for the same address again
+			mon.Scribble(*s)
+			if c.Try("bscript.NewP2PKHFromAddress", func() { s, err = bscript.NewP2PKHFromAddress(want) }) {
+				checkScript("NewP2PKHFromAddress(asked again):"+net, s, err)
+			}
+			ptx := bt.NewTx()
+			if c.Try("bt.(*Tx).PayToAddress", func() { err = ptx.PayToAddress(want, 1) }) && err == nil && len(ptx.Outputs) == 1 && ptx.Outputs[0].LockingScript != nil {
+				mon.Scribble(*ptx.Outputs[0].LockingScript)
+			}
+		}
 		if c.Try("bscript.NewP2PKHFromAddress", func() { s, err = bscript.NewP2PKHFromAddress(want) }) {
 			checkScript("NewP2PKHFromAddress:"+net, s, err)
 			if s != nil && err == nil {
